@@ -21,7 +21,9 @@ Inductive case :=
 | CTr (r : rules) (d : bool) (ops : list scope_id)
 | CLg (r : rules) (d : bool) (ops : list lreq)
 (* kind: 0 TracerProvider 1 MeterProvider 2 LoggerProvider; the schedule of the case is not part of the parsed case *)
-| CPrace (kind : N) (r : rules) (d : bool) (threads : list (list lreq)).
+| CPrace (kind : N) (r : rules) (d : bool) (threads : list (list lreq))
+(* independence probe (harness/c19_purity.cc, ThreadSanitizer build): PURITY <scenario> <threads> <rounds> <iters> *)
+| CPur.
 
 Definition parse_bool (t : tok) : option bool :=
   match t with TZ 0 => Some false | TZ 1 => Some true | _ => None end.
@@ -153,6 +155,11 @@ Definition parse_case (l : list tok) : option case :=
             | Some (r, d), Some ops => Some (CTr r d ops)
             | _, _ => None
             end
+        | _ => None
+        end
+      else if is_tag "PURITY" t then
+        match rest with
+        | [TZ _; TZ _; TZ _; TZ _] => Some CPur
         | _ => None
         end
       else if is_tag "PRACE" t then
@@ -323,6 +330,18 @@ Definition run_prace_trace (kind : N) (r : rules) (d : bool) (threads : list (li
       end
   end.
 
+(* the probe's observation: PURE, or what went wrong *)
+Definition spec_purity (obs : list tok) : list tok :=
+  match obs with
+  | [t] => if is_tag "PURE" t then [] else if is_tag "HANG" t then fail "purity:hang" else fail "obs:unparsable"
+  | t :: _ => if is_tag "RACE" t then fail "purity:data_race"
+              else if is_tag "DIFFERS" t then fail "purity:result_differs"
+              else if is_tag "HARNESSRACE" t then fail "harness:probe_race"
+              else if is_tag "CRASH" t then fail "purity:crash"
+              else fail "obs:unparsable"
+  | [] => fail "obs:unparsable"
+  end.
+
 (* ---------------------------------------------------------------- entry points *)
 Definition pred_model (pattern_kind : bool) (raw s : bytes) : option bool :=
   if pattern_kind then option_map (fun n => name_sel_match n s) (name_sel_of raw) else Some (exact_match raw s).
@@ -341,6 +360,7 @@ Definition run_model (l0 : list tok) : list tok :=
       | Some t => run_prace_trace kind r d threads t
       | None => flat_map print_hobs (prace_model kind r d threads)
       end
+  | Some CPur => [tag "PURE"]
   | None => bad_case
   end.
 
@@ -357,6 +377,7 @@ Definition run_spec (l0 obs : list tok) : list tok :=
       match parse_lg_obs obs with Some (idx, rs) => spec_lg r d ops idx rs | None => fail "obs:unparsable" end
   | Some (CPrace kind r d threads) =>
       match parse_prace_obs obs with Some hs => spec_prace r d threads hs | None => fail "obs:unparsable" end
+  | Some CPur => spec_purity obs
   | None => bad_case
   end.
 
@@ -407,5 +428,6 @@ Definition run_tag (l0 : list tok) : list tok :=
             else if (kind =? 0)%N then (if shared then "prace_tracer_shared" else "prace_tracer_disjoint")
             else if (kind =? 1)%N then (if shared then "prace_meter_shared" else "prace_meter_disjoint")
             else (if shared then "prace_logger_shared" else "prace_logger_disjoint"))]
+  | Some CPur => [tag "independence_probe"]
   | None => bad_case
   end.
